@@ -188,6 +188,8 @@ def stepOp (b : Bag) : Op → Bag × String
     | some r => (r.1, sitesStatus r.2.first r.2.last r.2.kept r.2.removed)
   | .compress =>
     if !b.isAlign then (b, "na") else
+    -- an alignment without sequences stays as it is (repair of /repo: `Compress` used to set its length to 0)
+    if b.rows.isEmpty then (b, "ok[_]") else
     match compressBag b with
     | none => (b, "PANIC")
     | some r => (r.1, "ok[" ++ plusList r.2 ++ "]")
